@@ -17,6 +17,10 @@ var commonAssumptions = []string{
 }
 
 var propMeta = map[string]PropMeta{
+	"C02": {
+		NotCovered: "encode(decode) agreement is proved on the decode side only, against the stated shape of what encoding/json produces from the struct tags; images/audio with an empty data or mime type are still rejected by the decoders (the contracts require non-empty ones); PromptMessage.UnmarshalJSON, the list/descriptor decoders (plain encoding/json) and annotations are not under contract; equality of item contents inside parseCallToolResult is per-kind (each parseContent call), not one quantified statement over the array.",
+		Assumptions: append([]string{"encoding/json marshals TextContent/ImageContent/AudioContent/EmbeddedResource/TextResourceContents/BlobResourceContents to objects with exactly the members named by their struct tags, and json.Unmarshal into map[string]any gives those members back as string/bool/[]any/map values", "sseutil.WriteEvent's data-line splitting and the clients' line readers are inverse for JSON text (which contains no raw line breaks)"}, commonAssumptions...),
+	},
 	"C01": {
 		NotCovered: "Concurrency of several calls in flight is covered only through the per-function contracts (each call's entry in a pending table is its own key; lock discipline under C20/C07); that no frame is dropped when the legacy SSE event queue is full is not proved (the code drops it and the call then ends with its context); string ids are compared by their text.",
 		Assumptions: append([]string{"IEEE 754: float64(n) is exact and truncates back to n for |n| <= 2^53", "fmt.Sprintf(\"%v\", n) of an int64 prints strconv.FormatInt(n, 10); math.Trunc/math.Abs as specified in std.spec", "the stdio client transport returns a non-nil raw message when it returns no error (trusted contract)"}, commonAssumptions...),
